@@ -345,6 +345,8 @@ class Interp:
         self.loop_hook = None    # f(interp, fn_key, ordinal, node, env, iterable) -> NotImplemented | None
         self.stack = []
         self.executed = set()
+        self.ctxvars = []
+        self.extent_cap = None
         self.stub_log = set()
         self.warn_log = []
         self.draw_log = []
@@ -354,6 +356,17 @@ class Interp:
         self.np = npstubs.make_numpy(self)
         self.stubmods = pystubs.make_modules(self)
         self.builtins = pystubs.make_builtins(self)
+
+    def reset_state(self):
+        """module-level mutable state of the interpreted program is reset before every path"""
+        from .pystubs import CtxVar, _MISSING
+        for v in self.ctxvars:
+            v.value = _MISSING
+            v.writes = 0
+        self.stack = []
+        self.call_depth = 0
+        self.warn_log = []
+        self.draw_log = []
 
     # ------------------------------------------------------------------ modules
     def module_path(self, name):
